@@ -192,3 +192,18 @@ def _write_evidence(pid, spec, tier, seed, ctx: Ctx, results: Dict[str, RuleResu
     }
     with open(os.path.join(EVIDENCE_DIR, f"{pid}.json"), "w") as fh:
         json.dump(ev, fh, indent=1, default=str)
+
+
+def run_rules_only(ctx: Ctx, names) -> list:
+    """(rule, reason) for every rule of `names` that is UNDECIDED on ctx's tree."""
+    table = all_rules()
+    out = []
+    for n in names:
+        fn = table.get(n)
+        if fn is None:
+            out.append((n, "rule not registered"))
+            continue
+        res = run_rule(n, fn, ctx)
+        if res.status == UNDECIDED:
+            out.append((n, (res.reason or "").splitlines()[0] if res.reason else ""))
+    return out
